@@ -128,6 +128,44 @@ func histMain(args []string) {
 		compile(1)
 		compile(2)
 		compile(3)
+		evalOn := func(e, d int) {
+			if exprs[e] == nil {
+				return
+			}
+			before, _ := project(docs[d])
+			outc := safeEval(exprs[e], docs[d])
+			after, perr := project(docs[d])
+			ev := M{"ev": "Eval", "e": e, "d": d, "inp": before, "out": outc}
+			ev["inp_same"] = perr == nil && canon(after) == canon(before)
+			a1 := astOf(verifNode(exprs[e]))
+			ev["ast_same"] = canon(a1) == asts[e]
+			s1, ok := safeString(exprs[e])
+			ev["str_same"] = ok && s1 == strs[e]
+			emit(ev)
+		}
+		if r.Intn(3) == 0 {
+			// a scripted opening: the same call site $f() evaluated before and after the name is registered again
+			// with another function, on the expression and at package level (visibility rules of C20, and C05:
+			// nothing learnt in one evaluation may be used in the next)
+			src := g.pick("$"+fname+"()", "[$"+fname+"(), $"+fname+"()]", "($g := $"+fname+"; $g())")
+			if ex, err := jsonata.Compile(src); err == nil {
+				exprs[1] = ex
+				a := astOf(verifNode(ex))
+				asts[1], strs[1] = canon(a), ex.String()
+				emit(M{"ev": "Compile", "e": 1, "src": cps(src), "ast": a})
+				for k := 0; k < 3; k++ {
+					spec, ext := extSpec()
+					if k == 2 && r.Intn(2) == 0 {
+						err := jsonata.RegisterExts(map[string]jsonata.Extension{fname: ext})
+						emit(M{"ev": "RegisterGlobal", "nm": fname, "nmcps": cps(fname), "val": spec, "ok": err == nil})
+					} else {
+						err := exprs[1].RegisterExts(map[string]jsonata.Extension{fname: ext})
+						emit(M{"ev": "RegisterExpr", "e": 1, "nm": fname, "nmcps": cps(fname), "val": spec, "ok": err == nil})
+					}
+					evalOn(1, 1+r.Intn(3))
+				}
+			}
+		}
 		for op := 0; op < nops; op++ {
 			switch k := r.Intn(20); {
 			case k == 0:
